@@ -454,8 +454,19 @@ func drive(p *props.Prop) int {
 		code = 1
 	}
 	if len(infra) > 0 {
+		seenInfra := map[string]int{}
 		for _, s := range infra {
-			fmt.Fprintln(os.Stderr, "INCONCLUSIVE:", oneLine(s, 1600))
+			key := s
+			if i := strings.Index(key, ": "); i > 0 && strings.HasPrefix(key, "shard ") {
+				key = key[i+2:]
+			}
+			if len(key) > 160 {
+				key = key[:160]
+			}
+			seenInfra[key]++
+			if seenInfra[key] == 1 && len(seenInfra) <= 8 {
+				fmt.Fprintln(os.Stderr, "INCONCLUSIVE:", oneLine(s, 700))
+			}
 		}
 		if code == 0 {
 			code = 2
